@@ -41,6 +41,7 @@ const (
 	PathsAreSimilar                    = "the ambiguous paths are not allowed: \"/%s\", \"/%s\", see the details here: https://jsight.io/docs/jsight-api-0-3#parameter-path"                    //nolint:lll
 	PathParameterAlreadyDefined        = "The parameter %q has already been defined earlier, see more details about path parameters here: https://jsight.io/docs/jsight-api-0-3#parameter-path" //nolint:lll
 
+	IncludeEmptyErr     = "cannot be empty"
 	IncludeRootErr      = "cannot not start with `/`"
 	IncludeUpErr        = "cannot contain `..` or `.`"
 	IncludeSeparatorErr = "directories must be separated by slashes `/`"
